@@ -535,7 +535,9 @@ def iteration_point():
                              "%s.GetLeft().GetX() < %s.GetX() and %s.GetX() < %s.GetX()" % (o, n, n, o),
                              # C03: the accuracy is the smallest Hoelder length of a subdivided interval
                              "%s.solutionAccuracy == min(%s.delta, old(%s.solutionAccuracy))" % (SOL, o, SOL),
-                             "%s.GetIndex() == -2" % n] + new_item_post(n),
+                             "%s.solutionAccuracy <= old(%s.solutionAccuracy)" % (SOL, SOL),
+                             "%s.GetIndex() == -2" % n, G_BASE[3],
+                             "fresh(self.evolvent.yValues) or self.evolvent.yValues is old(self.evolvent.yValues)"] + new_item_post(n),
                     chain=True,
                     ghost_after={"GetDataItemWithMaxGlobalR": [
                         # lemma hints: the popped entry is a member with the maximal characteristic over the whole partition
@@ -582,7 +584,9 @@ def renew_search_data():
                         "self.M[0] == max(max(old(self.M[0]), (abs({l}.GetZ() - newpoint.GetZ()) / newpoint.delta) if "
                         "{l}.GetIndex() == 0 else old(self.M[0])), (abs(newpoint.GetZ() - oldpoint.GetZ()) / oldpoint.delta) if "
                         "oldpoint.GetIndex() == 0 else old(self.M[0]))".format(l=l),
-                        "implies(self.M[0] != old(self.M[0]), self.recalc)"],
+                        "implies(self.M[0] != old(self.M[0]), self.recalc)",
+                        "%s._allTrials[vlen(%s._allTrials) - 1] is newpoint" % (SD, SD),
+                        "forall(0, old(vlen(%s._allTrials)), lambda k: %s._allTrials[k] is old(%s._allTrials[k]))" % (SD, SD, SD)],
                     ghost_after={"self.CalculateGlobalR(oldpoint, newpoint)": [
                         # lemma hints: no queue entry belongs to the two items whose characteristic was just rewritten
                         "assert self.recalc or forall(0, %s.glen, lambda qi: %s.gitems[qi] is not oldpoint and "
@@ -617,10 +621,12 @@ def first_iteration():
                                          "vlen(%s._allTrials) == 3 and %s._allTrials[2] is %s" % (SD, SD, item(1)),
                                          "fresh(%s) and fresh(%s) and fresh(%s)" % (item(0), item(1), item(2)),
                                          "vecval(%s.point.floatVariables) == imgv(self.evolvent, 0.5)" % item(1),
+                                         "fresh(self.evolvent.yValues) or self.evolvent.yValues is old(self.evolvent.yValues)",
                                          "%s.GetZ() == objf(%s, vecval(%s.point.floatVariables))" % (item(1), PB, item(1))],
                     raises={"$any": ["%s.numberOfGlobalTrials == old(%s.numberOfGlobalTrials)" % (SOL, SOL),
                                      "%s.gevals == old(%s.gevals) and %s.gcalls == old(%s.gcalls) + 1" % (PB, PB, PB, PB),
-                                     "%s.gn == 0 and self.best is None" % SD]},
+                                     "%s.gn == 0 and self.best is None" % SD, "self.iterationsCount == 1",
+                                     "fresh(self.evolvent.yValues) or self.evolvent.yValues is old(self.evolvent.yValues)"]},
                     doc="C02: the first trial is the evolvent image of x = 0.5; the search information [0, 0.5, 1] is "
                         "established with every invariant of the method")
 
@@ -628,8 +634,218 @@ def first_iteration():
 def method_contracts():
     return [calculate_delta(), calculate_m(), calculate_global_r(), next_point(), check_stop(), finalize_iteration(),
             task_calculate(), calculate_functionals(), update_optimum(), recalc_all(), iteration_point(),
-            renew_search_data(), first_iteration()]
+            renew_search_data(), first_iteration()] + process_contracts()
 
 
 def loop_specs():
-    return {(F_METHOD, "Method.RecalcAllCharacteristics", 0): recalc_loop()}
+    d = {(F_METHOD, "Method.RecalcAllCharacteristics", 0): recalc_loop()}
+    d.update(process_loop_specs())
+    return d
+
+
+# ----------------------------------------------------------------------------- Process (C03 C11 C13 C16 C05)
+MT = "self.method"
+
+
+def on_method(clauses, prefix=MT):
+    return [c.replace("self.", prefix + ".") for c in clauses]
+
+
+P_BASE = ["self.method is not None and self.searchData is not None and self.task is not None and self.parameters is not None and "
+          "self.evolvent is not None and self._Process__listeners is not None",
+          "self.method.searchData is self.searchData and self.method.task is self.task and "
+          "self.method.parameters is self.parameters and self.method.evolvent is self.evolvent",
+          "vlen(self._Process__listeners) >= 0",
+          "self._Process__listeners is not self.searchData._allTrials and self._Process__listeners is not "
+          "self.searchData.solution.bestTrials and self._Process__listeners is not self.task.perm"]
+M_INIT = ["%s.gn == 0 and %s._allTrials is not None and vlen(%s._allTrials) == 0" % (SD, SD, SD),
+          "%s._RGlobalQueue is not None and %s is not None and depq_ok(%s) and %s.maxlen == 0 and %s.glen == 0" % (SD, Q, Q, Q, Q),
+          "self.best is None and self.M[0] == 1 and self.Z[0] == PINF() and self.recalc == True",
+          "self.iterationsCount == 0 and %s.numberOfGlobalTrials == 0 and %s.solutionAccuracy == PINF()" % (SOL, SOL)]
+FIRST = "self._Process__first_iteration"
+MPB = "self.method.task.problem"
+MSD = "self.method.searchData"
+MSOL = MSD + ".solution"
+LIS = "self._Process__listeners"
+W = "world()"
+
+
+def p_state():
+    """the state of the method between iterations, as seen from Process: not yet started, or the invariant holds"""
+    init = on_method(inv("base") + M_INIT)
+    run = on_method(inv(*ALL) + GROUPS["count"])
+    return ["implies(%s, %s)" % (FIRST, " and ".join("(%s)" % c for c in init)),
+            "implies(not %s, %s)" % (FIRST, " and ".join("(%s)" % c for c in run))]
+
+
+def trace_entries(kind, n0, who, a, b, upto):
+    """entries n0 .. n0+upto-1 of the notification trace are `kind` notifications of listeners 0.. in order"""
+    return ("forall(0, %s, lambda tj: %s.gtkind[%s + tj] == %d and %s.gtwho[%s + tj] is %s[tj] and %s.gta[%s + tj] is %s and "
+            "%s.gtb[%s + tj] is %s)" % (upto, W, n0, kind, W, n0, who, W, n0, a, W, n0, b))
+
+
+def listener_loop(kind, a, b):
+    n0 = "old(%s.gtn)" % W
+    return LoopSpec(invariant=["0 <= gli and gli <= vlen(%s)" % LIS, "%s.gtn == %s + gli" % (W, n0),
+                               trace_entries(kind, n0, LIS, a, b, "gli"),
+                               "forall(0, %s, lambda tj: %s.gtkind[tj] == old(%s.gtkind[tj]) and %s.gtwho[tj] is old(%s.gtwho[tj]) "
+                               "and %s.gta[tj] is old(%s.gta[tj]) and %s.gtb[tj] is old(%s.gtb[tj]))" % ((n0,) + (W,) * 8)],
+                    modifies=[W + ".gtn", W + ".gtkind", W + ".gtwho", W + ".gta", W + ".gtb"],
+                    variant="vlen(%s) - gli" % LIS)
+
+
+def get_results():
+    return Contract(F_PROC, "Process.GetResults", params={}, result="ref:Solution", modifies=[], allocates=False,
+                    requires=["self.searchData is not None"], ensures=["result is self.searchData.solution"],
+                    doc="the solution object of this solver's search data")
+
+
+def do_global_iteration():
+    cnt = ["%s.iterationsCount == old(%s.iterationsCount) + {j}" % (MT, MT),
+           "%s.numberOfGlobalTrials == old(%s.numberOfGlobalTrials) + {j}" % (MSOL, MSOL),
+           "%s.gevals == old(%s.gevals) + {j} and %s.gcalls == old(%s.gcalls) + {j}" % (MPB, MPB, MPB, MPB)]
+    saved = ["vlen(savedNewPoints) == {j}",
+             "forall(0, {j}, lambda ti: savedNewPoints[ti] is %s._allTrials[vlen(%s._allTrials) - {j} + ti])" % (MSD, MSD)]
+    mods = ["%s.iterationsCount" % MT, "%s.best" % MT, "%s.recalc" % MT, "elems(%s.M)" % MT, "elems(%s.Z)" % MT,
+            "elems(%s.bestTrials)" % MSOL, "%s.numberOfGlobalTrials" % MSOL, "%s.solutionAccuracy" % MSOL,
+            "%s.gcalls" % MPB, "%s.gevals" % MPB, "%s.evolvent.yValues" % MT, "elems(%s.evolvent.yValues)" % MT,
+            "elems(%s._allTrials)" % MSD, "len_(%s._allTrials)" % MSD, "%s._SearchData__firstDataItem" % MSD,
+            "%s.curIter" % MSD, "%s.gseq" % MSD, "%s.gn" % MSD, "%s.gpos" % MSD, FIRST,
+            "allof(globalR)", "allof(delta)", "allof(_SearchDataItem__leftPoint)", "allof(_SearchDataItem__rightPoint)",
+            "allof(_SearchDataItem__z)", "allof(_SearchDataItem__index)", "allof(value)", "allof(curIter)",
+            W + ".gtn", W + ".gtkind", W + ".gtwho", W + ".gta", W + ".gtb"] + QMODS
+    n0 = "old(%s.gtn)" % W
+    nb = "(vlen(%s) if (old(%s) and number >= 1) else 0)" % (LIS, FIRST)
+    return Contract(F_PROC, "Process.DoGlobalIteration", params={"number": "int"}, result="none", modifies=mods,
+                    requires=P_BASE + p_state() + ["number >= 0"],
+                    ghost_results={"gsaved": "list:SearchDataItem"}, ghost_exit=["gsaved = savedNewPoints"],
+                    ensures=P_BASE + p_state() + [c.format(j="number") for c in cnt] +
+                            ["implies(number >= 1, %s == False)" % FIRST, "implies(number == 0, %s == old(%s))" % (FIRST, FIRST),
+                             "fresh(%s.evolvent.yValues) or %s.evolvent.yValues is old(%s.evolvent.yValues)" % (MT, MT, MT),
+                             # C13: exactly the new trials of this call, in order, are handed to every listener once
+                             "fresh(gsaved) and vlen(gsaved) == number",
+                             "forall(0, number, lambda ti: gsaved[ti] is %s._allTrials[vlen(%s._allTrials) - number + ti])" % (MSD, MSD),
+                             "%s.gtn == %s + %s + vlen(%s)" % (W, n0, nb, LIS),
+                             "implies(old(%s) and number >= 1, %s)" % (FIRST, trace_entries(1, n0, LIS, MT, "None", "vlen(%s)" % LIS)),
+                             trace_entries(2, "%s + %s" % (n0, nb), LIS, "gsaved", MSOL, "vlen(%s)" % LIS)],
+                    raises={"$any": P_BASE + [
+                        # C16: an objective failure leaves the completed trials intact and unrecorded points out
+                        "%s.numberOfGlobalTrials - old(%s.numberOfGlobalTrials) == %s.gevals - old(%s.gevals)" % (MSOL, MSOL, MPB, MPB),
+                        "%s.gcalls == %s.gevals - old(%s.gevals) + old(%s.gcalls) + 1" % (MPB, MPB, MPB, MPB),
+                        "%s.iterationsCount <= old(%s.iterationsCount) + %s.gevals - old(%s.gevals) + 1" % (MT, MT, MPB, MPB),
+                        "0 <= %s.gevals - old(%s.gevals) and %s.gevals - old(%s.gevals) < number" % (MPB, MPB, MPB, MPB),
+                        "%s.gtn >= old(%s.gtn)" % (W, W),
+                        "fresh(%s.evolvent.yValues) or %s.evolvent.yValues is old(%s.evolvent.yValues)" % (MT, MT, MT),
+                        "%s.gn == 0 or %s.gn >= 3" % (MSD, MSD),
+                        "implies(%s.gn >= 3, %s.gn - 2 == %s.numberOfGlobalTrials)" % (MSD, MSD, MSOL)] +
+                        ["implies(%s.gn >= 3, %s)" % (MSD, c) for c in on_method(inv("base", "wf", "own", "ord", "delta", "val", "best"))]},
+                    doc="C03/C11/C13/C16: `number` iterations without any stop check; every listener is told once before the "
+                        "first trial and once with exactly the new trials of this call; an objective failure propagates with "
+                        "the search information intact")
+
+
+def dgi_loop():
+    j = "_"
+    inv_ = P_BASE + p_state() + ["0 <= _ and _ <= number", "fresh(%s.evolvent.yValues) or %s.evolvent.yValues is old(%s.evolvent.yValues)" % (MT, MT, MT),
+        "%s.iterationsCount == old(%s.iterationsCount) + _" % (MT, MT),
+        "%s.numberOfGlobalTrials == old(%s.numberOfGlobalTrials) + _" % (MSOL, MSOL),
+        "%s.gevals == old(%s.gevals) + _ and %s.gcalls == old(%s.gcalls) + _" % (MPB, MPB, MPB, MPB),
+        "implies(_ >= 1, %s == False)" % FIRST, "implies(_ == 0, %s == old(%s))" % (FIRST, FIRST),
+        "fresh(savedNewPoints) and vlen(savedNewPoints) == _ and savedNewPoints is not %s" % LIS,
+        "forall(0, _, lambda ti: savedNewPoints[ti] is %s._allTrials[vlen(%s._allTrials) - _ + ti])" % (MSD, MSD),
+        "%s.gtn == old(%s.gtn) + (vlen(%s) if (old(%s) and _ >= 1) else 0)" % (W, W, LIS, FIRST),
+        "implies(old(%s) and _ >= 1, %s)" % (FIRST, trace_entries(1, "old(%s.gtn)" % W, LIS, MT, "None", "vlen(%s)" % LIS))]
+    c = do_global_iteration()
+    mods = [m for m in c.modifies] + ["elems(savedNewPoints)", "len_(savedNewPoints)"]
+    return LoopSpec(invariant=inv_, modifies=mods, variant="number - _")
+
+
+def solve():
+    stopc = "(%s.solutionAccuracy < self.parameters.eps or %s.iterationsCount >= self.parameters.itersLimit)" % (MSOL, MT)
+    n0 = "old(%s.gtn)" % W
+    return Contract(F_PROC, "Process.Solve", params={}, result="ref:Solution", modifies=do_global_iteration().modifies +
+                    ["%s.stop" % MT, "%s.solvingTime" % MSOL],
+                    requires=P_BASE + p_state() + ["self.parameters.itersLimit >= 1 and self.parameters.eps > 0",
+                                                   "self.parameters.refineSolution == False",
+                                                   "%s.iterationsCount <= self.parameters.itersLimit" % MT],
+                    ensures=P_BASE + ["result is %s" % MSOL,
+                             # C03: the reported trial count is the number of completed objective evaluations, within budget
+                             "%s.numberOfGlobalTrials - old(%s.numberOfGlobalTrials) == %s.gevals - old(%s.gevals)" % (MSOL, MSOL, MPB, MPB),
+                             "%s.iterationsCount <= self.parameters.itersLimit" % MT,
+                             "implies(%s.gcalls - old(%s.gcalls) == %s.gevals - old(%s.gevals), %s)" % (MPB, MPB, MPB, MPB, stopc),
+                             # C11: Solve on a solver whose stop criterion already holds performs no trial
+                             "implies(not old(%s) and old(%s), %s.gcalls == old(%s.gcalls))" % (FIRST, stopc, MPB, MPB),
+                             # C16: an objective failure ends the search after at most one failed call; completed trials stay
+                             "%s.gcalls - old(%s.gcalls) <= %s.gevals - old(%s.gevals) + 1" % (MPB, MPB, MPB, MPB),
+                             "implies(%s.gn >= 3, %s.gn - 2 == %s.numberOfGlobalTrials)" % (MSD, MSD, MSOL)] +
+                             ["implies(%s.gn >= 3, %s)" % (MSD, c) for c in on_method(inv("base", "wf", "own", "ord", "delta", "val", "best"))] + [
+                             # C13: every listener is told once, at the end, with the returned solution
+                             "%s.gtn >= %s + vlen(%s)" % (W, n0, LIS),
+                             trace_entries(3, "%s.gtn - vlen(%s)" % (W, LIS), LIS, "self.searchData", MSOL, "vlen(%s)" % LIS)],
+                    doc="C03/C13/C16: iterations are carried out one at a time while the stop criterion does not hold; the loop "
+                        "terminates (variant: remaining budget); an exception of the objective is contained")
+
+
+def solve_loop():
+    return LoopSpec(invariant=P_BASE + p_state() + ["fresh(%s.evolvent.yValues) or %s.evolvent.yValues is old(%s.evolvent.yValues)" % (MT, MT, MT),
+        "%s.iterationsCount <= self.parameters.itersLimit" % MT,
+        "%s.numberOfGlobalTrials - old(%s.numberOfGlobalTrials) == %s.gevals - old(%s.gevals)" % (MSOL, MSOL, MPB, MPB),
+        "%s.gcalls - old(%s.gcalls) == %s.gevals - old(%s.gevals)" % (MPB, MPB, MPB, MPB),
+        "%s.gtn >= old(%s.gtn)" % (W, W)],
+        modifies=do_global_iteration().modifies + ["%s.stop" % MT],
+        variant="self.parameters.itersLimit - %s.iterationsCount" % MT)
+
+
+def stop_listener_loop():
+    n0 = "old(%s.gtn)" % W
+    return LoopSpec(invariant=["0 <= gli and gli <= vlen(%s)" % LIS, "%s.gtn == %s + gli" % (W, n0),
+                               trace_entries(3, n0, LIS, "self.searchData", MSOL, "gli")],
+                    modifies=[W + ".gtn", W + ".gtkind", W + ".gtwho", W + ".gta", W + ".gtb", "%s.stop" % MT],
+                    variant="vlen(%s) - gli" % LIS)
+
+
+def process_contracts():
+    return [get_results(), do_global_iteration(), solve()]
+
+
+def process_loop_specs():
+    return {(F_PROC, "Process.DoGlobalIteration", 0): dgi_loop(),
+            (F_PROC, "Process.DoGlobalIteration", 1): listener_loop(1, MT, "None"),
+            (F_PROC, "Process.DoGlobalIteration", 2): listener_loop(2, "savedNewPoints", MSOL),
+            (F_PROC, "Process.Solve", 0): solve_loop(),
+            (F_PROC, "Process.Solve", 1): stop_listener_loop()}
+
+
+# ----------------------------------------------------------------------------- console final report (C13)
+F_CONSOLE = "iOpt/output_system/console/console_output.py"
+SCHEMA.update({"gp_solved": "bool", "gp_glob": "int", "gp_loc": "int", "gp_time": "real", "gp_acc": "real",
+               "gp_point": "ref:object", "gp_value": "real", "_FunctionConsoleFullOutput__outputer": "ref:ConsoleOutputer",
+               "iterNum": "int", "_ConsoleFullOutputListener__fcfo": "ref:FunctionConsoleFullOutput", "mode": "any", "iters": "int"})
+
+
+def console_contracts():
+    ws = ["world().gp_solved", "world().gp_glob", "world().gp_loc", "world().gp_time", "world().gp_acc", "world().gp_point",
+          "world().gp_value"]
+    pr = Contract(F_CONSOLE, "ConsoleOutputer.printResult",
+                  params={"solved": "bool", "numberOfGlobalTrials": "int", "numberOfLocalTrials": "int", "solvingTime": "real",
+                          "solutionAccuracy": "real", "bestTrialPoint": "ref:object", "bestTrialValue": "real"},
+                  result="none", modifies=ws, allocates=True,
+                  ensures=["world().gp_solved == solved and world().gp_glob == numberOfGlobalTrials and "
+                           "world().gp_loc == numberOfLocalTrials and world().gp_time == solvingTime and "
+                           "world().gp_acc == solutionAccuracy and world().gp_point is bestTrialPoint and "
+                           "world().gp_value == bestTrialValue"],
+                  doc="ASSUMED (body = str.format / print, checked syntactically in props/c13.py): prints each parameter under "
+                      "its label; the ghost fields gp_* record which value was printed under which label")
+    bt = "solution.bestTrials[0]"
+    pf = Contract(F_CONSOLE, "FunctionConsoleFullOutput.printFinalResult", params={"solution": "ref:Solution", "status": "bool"},
+                  result="none", modifies=ws, allocates=True,
+                  requires=["self._FunctionConsoleFullOutput__outputer is not None",
+                            "solution.bestTrials is not None and vlen(solution.bestTrials) == 1 and %s is not None and "
+                            "%s.point is not None and %s.functionValues is not None and vlen(%s.functionValues) >= 1 and "
+                            "%s.functionValues[0] is not None" % (bt, bt, bt, bt, bt)],
+                  ensures=["world().gp_glob == solution.numberOfGlobalTrials and world().gp_loc == solution.numberOfLocalTrials",
+                           "world().gp_point is %s.point.floatVariables and world().gp_value == %s.functionValues[0].value" % (bt, bt),
+                           "world().gp_acc == solution.solutionAccuracy and world().gp_time == solution.solvingTime and "
+                           "world().gp_solved == status"],
+                  doc="C13: the final console report shows the solution's actual trial counts, point, value and accuracy")
+    return [pr, pf]
